@@ -459,6 +459,11 @@ def gen_plan(seed, tier):
         plan['cost2'] = gen.gen_cost(rng, dim, ['quad', 'rosen', 'abs', 'flat', 'tied'])
         plan['x02'] = gen.gen_x0(rng, dim)
         plan['order'] = [rng.randrange(2) for _ in range(2 * plan['limits'][0])]
+    if big:
+        # (ten parameters: detectors over all pairs at every step, and a restart file per generation, make long runs slow)
+        plan['save'] = False
+        plan['limits'][0] = min(plan['limits'][0], 15 if solver == 'Powell' else 25)
+        plan['detectors'] = plan['detectors'][:2]
     r6 = sub_rng(seed, 'plan.c11.twice')
     if plan['mode'] in ('solve', 'manual', 'manual_collapsed') and r6.random() < 0.15 and not big:
         plan['twice'] = True
